@@ -28,6 +28,7 @@ impl Serializable for PD64 { fn write_into<W: ByteWriter>(&self, t: &mut W) { t.
 impl Deserializable for PD64 {
     fn read_from<R: ByteReader>(s: &mut R) -> Result<Self, DeserializationError> { Ok(PD64(s.read_u64()?)) }
 }
+#[derive(Debug, Clone, Copy, PartialEq, Eq)]
 pub struct PairHash64;
 impl Hasher for PairHash64 {
     type Digest = PD64;
@@ -75,6 +76,7 @@ impl Serializable for PD128 { fn write_into<W: ByteWriter>(&self, t: &mut W) { t
 impl Deserializable for PD128 {
     fn read_from<R: ByteReader>(s: &mut R) -> Result<Self, DeserializationError> { Ok(PD128(s.read_u128()?)) }
 }
+#[derive(Debug, Clone, Copy, PartialEq, Eq)]
 pub struct PairHash128;
 impl Hasher for PairHash128 {
     type Digest = PD128;
@@ -115,6 +117,7 @@ impl Serializable for MD { fn write_into<W: ByteWriter>(&self, t: &mut W) { t.wr
 impl Deserializable for MD {
     fn read_from<R: ByteReader>(s: &mut R) -> Result<Self, DeserializationError> { Ok(MD(s.read_u64()?)) }
 }
+#[derive(Debug, Clone, Copy, PartialEq, Eq)]
 pub struct MixHash<B: StarkField>(PhantomData<B>);
 fn mix(acc: u64, x: u64) -> u64 { acc.rotate_left(9) ^ x ^ 0x9e37_79b9_7f4a_7c15 }
 impl<B: StarkField> Hasher for MixHash<B> {
